@@ -27,6 +27,11 @@ func (x *Err) UnmarshalXML(d *xml.Decoder, start xml.StartElement) error {
 
 	// Extract attributes
 	for _, attr := range start.Attr {
+		if attr.Name.Space != "" {
+			// type and code are unqualified: an attribute of another namespace that happens
+			// to be called type or code is not ours
+			continue
+		}
 		if attr.Name.Local == "type" {
 			x.Type = ErrorType(attr.Value)
 		}
